@@ -96,7 +96,7 @@ IPow(b, e) == IF e = 0 THEN 1 ELSE b * IPow(b, e - 1)
 
 BitAndI(a, b) == IF a = -1 THEN IntV(b) ELSE IF b = -1 THEN IntV(a)
                  ELSE IF a >= 0 /\ b >= 0 THEN IntV(a & b) ELSE ErrV("range")
-BitOrI(a, b) == IF a >= 0 /\ b >= 0 THEN IntV(a | b) ELSE ErrV("range")
+BitOrI(a, b) == IF a = -1 \/ b = -1 THEN IntV(-1) ELSE IF a >= 0 /\ b >= 0 THEN IntV(a | b) ELSE ErrV("range")
 BitXorI(a, b) == IF a >= 0 /\ b >= 0 THEN IntV(a ^^ b) ELSE ErrV("range")
 
 \* Result: a value, or a string naming the error kind
